@@ -14,10 +14,11 @@
      g_ok            output names are distinct (keys of a Go map); temp names are distinct, did not
                      exist (O_EXCL) and are not output names  - C17_real_names_meet_the_guards shows
                      that the names shoot really uses satisfy this
-     g_spares        Clean does not select what this run wrote (false on the input class of the open
-                     finding K_clean_own_output, see C17_refuted_K_clean_own_output; true for the
-                     all-in-one output whenever Dir is "." or the finding is repaired, see
-                     C17_guard_holds_from_the_package_dir_or_after_repair)
+     g_spares        Clean does not select what this run wrote.  The current code (c_fixed = true:
+                     Clean compares base names, /repo commit 31cd4c3) meets it for every Dir and every
+                     spelling of the star: C17_current_code_meets_all_guards.  The code before that
+                     commit (c_fixed = false, finding K_clean_own_output, fixed) did not:
+                     C17_refuted_K_clean_own_output.
    That rename(2) rebinds the destination in one step is the semantics of
    [Rename] in the model, not a theorem. *)
 From Coq Require Import String Ascii List Bool Arith Permutation.
@@ -52,6 +53,16 @@ Theorem C17_victim_old_or_gone : forall c init outs p n,
   visible (exec init p) n = visible init n \/ visible (exec init p) n = None.
 Proof. intros c init outs p n G. exact (victim_old_or_gone c init outs G p n). Qed.
 Print Assumptions C17_victim_old_or_gone.
+
+(* ... and it is gone only once it is superseded: if at some crash point a selected file
+   is already removed, every output already shows its complete new content (Clean runs
+   after the write loop) *)
+Theorem C17_removed_only_when_superseded : forall c init outs p n o,
+  good c init outs -> prefix_of p (plan c init outs) ->
+  In n (victims c (exec init (write_ops (c_fd c) outs))) -> lookup n (dir (exec init p)) = None ->
+  In o outs -> visible (exec init p) (o_name o) = Some (new_bytes o).
+Proof. exact removed_only_when_superseded. Qed.
+Print Assumptions C17_removed_only_when_superseded.
 
 (* no file appears under a name that is not an output or a temporary *)
 Theorem C17_only_outputs_and_temps_appear : forall c init outs p n,
@@ -193,12 +204,21 @@ Theorem C17_real_names_meet_the_guards : forall cmd init outs,
 Proof. exact shaped_okouts. Qed.
 Print Assumptions C17_real_names_meet_the_guards.
 
-(* g_spares for the all-in-one output: Clean's own-file test succeeds when Dir is "." and,
-   once K_clean_own_output is repaired (c_fixed), for every Dir *)
+(* g_spares: Clean's own-file test succeeds when Dir is "." and, with the base-name
+   comparison of the current code (c_fixed), for every Dir *)
 Theorem C17_guard_holds_from_the_package_dir_or_after_repair : forall c o,
   (c_dirdot c || c_fixed c) = true -> o_name o = c_genfile c -> spares c o = true.
 Proof. exact own_spares. Qed.
 Print Assumptions C17_guard_holds_from_the_package_dir_or_after_repair.
+
+(* the current code: when Clean is active (-type=* without -sep) main's srcMap has the
+   single key fileName("") = genfile [aio_shape]; then [good] needs nothing about Clean:
+   all theorems above hold for every [dir] argument and however the star is spelled *)
+Theorem C17_current_code_meets_all_guards : forall c init outs,
+  c_fixed c = true -> aio_shape c outs -> nofds init -> dir_wf init -> okouts init outs ->
+  good c init outs.
+Proof. exact current_code_good. Qed.
+Print Assumptions C17_current_code_meets_all_guards.
 
 (* every directory state given as a list of (name, inode, bytes) meets g_nofds, g_wf *)
 Theorem C17_states_meet_the_guards : forall files,
@@ -336,8 +356,10 @@ Proof.
   - intros o [<-|[<-|[]]]; reflexivity.
 Qed.
 
-(* ---- the open finding: with a [dir] argument and the star passed as a separate
-   argument the guard g_spares fails, and the run deletes what it wrote *)
+(* ---- finding K_clean_own_output (fixed by /repo commit 31cd4c3): in the defect branch
+   (c_fixed = false), with a [dir] argument and the star passed as a separate argument,
+   the guard g_spares fails and the run deletes what it wrote.  The same run in the
+   current-code branch keeps it (C17_current_code_keeps_the_witness_output). *)
 Definition kf_out : output :=
   {| o_name := "a.shootnew.go"; o_tmp := ".a.shootnew.go_1";
      o_chunks := ["// Code generated by ""shoot new -type * ./p""; DO NOT EDIT. (v0.7.0)" ++ ex_nl] |}.
@@ -363,3 +385,19 @@ Proof.
   - split; [now left|]. split; [reflexivity|]. split; [reflexivity|]. vm_compute. discriminate.
 Qed.
 Print Assumptions C17_refuted_K_clean_own_output.
+
+Example C17_current_code_keeps_the_witness_output :
+  let c := {| c_cmd := "new"; c_clean := true; c_dirdot := false; c_fixed := true;
+              c_genfile := "a.shootnew.go"; c_fd := 3 |} in
+  good c kf_init [kf_out] /\
+  visible (exec kf_init (plan c kf_init [kf_out])) "a.shootnew.go" = Some (new_bytes kf_out).
+Proof.
+  cbn zeta. split; [|reflexivity].
+  destruct (mk_init_wf [("a.go", 0, "package p")]) as (H1 & H2 & _).
+  apply current_code_good; auto.
+  - intros _ o [<-|[]]. reflexivity.
+  - apply (shaped_okouts "new").
+    + repeat constructor. intros [].
+    + intros o [<-|[]]. split; [reflexivity|]. exists "1". repeat split. discriminate.
+    + intros t [<-|[]]. reflexivity.
+Qed.
